@@ -644,6 +644,23 @@ fn directed(out: &mut Buf, st: &mut Stats, rng: &mut Rng) {
     push_query(out, st, &w, &q, &[("v".into(), Val::Null)], "directed-K6-null-variable-ne", false);
     let mut q = qspec(vec![sel(0, None), sel(1, None)]); q.filters = vec![Filt { r: FRef::Name(1), op: 0, v: lit(Val::Null) }];
     push_query(out, st, &w, &q, &[], "directed-null-literal-ok", false);
+    // a variable with a non-null value on a nullable field (row r2 holds null), every operator, by name and by alias
+    for op in 0..6 {
+        let mut q = qspec(vec![sel(0, None), sel(1, None)]); q.filters = vec![Filt { r: FRef::Name(1), op, v: Opnd::Var("v".into()) }];
+        push_query(out, st, &w, &q, &[("v".into(), Val::Int(1))], "directed-nullable-variable", false);
+        let mut q = qspec(vec![sel(0, None), sel(1, Some("kk"))]); q.filters = vec![Filt { r: FRef::Alias(1), op, v: Opnd::Var("v".into()) }];
+        push_query(out, st, &w, &q, &[("v".into(), Val::Int(1))], "directed-nullable-variable-alias", false);
+        let mut q = qspec(vec![sel(0, None)]); q.filters = vec![Filt { r: FRef::Name(2), op, v: Opnd::Var("v".into()) }];
+        push_query(out, st, &w, &q, &[("v".into(), Val::Str("dd".into()))], "directed-nullable-variable-unselected", false);
+    }
+    // an order key named by the field's own name while the field is selected under an alias only
+    let mut q = qspec(vec![sel(0, Some("nn")), sel(1, None)]); q.order = vec![OKey { r: FRef::Name(0), desc: true }];
+    push_query(out, st, &w, &q, &[], "directed-order-by-name-of-aliased-field", false);
+    push_pages(out, st, &w, &q, &[], 2, "directed-pages-by-name-of-aliased-field");
+    let mut q1 = q.clone(); q1.paging = Paging::After(vec![lit(Val::Str("r3".into()))]);
+    push_query(out, st, &w, &q1, &[], "directed-after-by-name-of-aliased-field", false);
+    let mut q1 = q.clone(); q1.paging = Paging::Before(vec![Opnd::Var("c".into())]);
+    push_query(out, st, &w, &q1, &[("c".into(), Val::Str("r3".into()))], "directed-before-by-name-of-aliased-field", false);
     // K7: first $n with n = 0
     let mut q = qspec(vec![sel(0, None)]); q.first = Opnd::Var("n".into());
     push_query(out, st, &w, &q, &[("n".into(), Val::Int(0))], "directed-K7-first-variable-zero", false);
@@ -1061,13 +1078,13 @@ impl ACol {
         }
     }
 }
-struct AQuery { cols: Vec<ACol>, wher: Vec<(usize, usize, Val)>, having: Vec<(usize, usize, Val)>, order: Vec<(usize, bool)>, first: i64, skip: i64 }
+struct AQuery { cols: Vec<ACol>, wher: Vec<(usize, usize, Val)>, having: Vec<(usize, usize, Val)>, order: Vec<(usize, bool)>, first: i64, skip: i64, by_model_name: bool }   // by_model_name: an aliased group column is named by its field in order_by
 impl AQuery {
     fn text(&self) -> String {
         let mut ps: Vec<String> = vec![];
         for (f, op, v) in &self.wher { ps.push(format!("{} {} {}", AGG_FIELDS[*f].0, OPS[*op], v.text())); }
         for (k, op, v) in &self.having { ps.push(format!("{} {} {}", self.cols[*k].name(), OPS[*op], v.text())); }
-        if !self.order.is_empty() { ps.push(format!("order_by({})", self.order.iter().map(|(k, d)| format!("{} {}", self.cols[*k].name(), if *d { "desc" } else { "asc" })).collect::<Vec<_>>().join(", "))); }
+        if !self.order.is_empty() { ps.push(format!("order_by({})", self.order.iter().map(|(k, d)| format!("{} {}", match (&self.cols[*k], self.by_model_name) { (ACol::Field(f, _), true) => AGG_FIELDS[*f].0.to_string(), (c, _) => c.name() }, if *d { "desc" } else { "asc" })).collect::<Vec<_>>().join(", "))); }
         if self.first != 0 { ps.push(format!("first {}", self.first)); }
         if self.skip != 0 { ps.push(format!("skip {}", self.skip)); }
         let sel: Vec<String> = self.cols.iter().map(|c| c.text()).collect();
@@ -1145,7 +1162,7 @@ fn gen_agg_query(rng: &mut Rng) -> AQuery {
         order = keys.into_iter().map(|k| (k, rng.chance(1, 2))).collect();
     }
     let (first, skip) = if !order.is_empty() && rng.chance(1, 2) { (rng.range(0, 3), rng.range(0, 2)) } else { (0, 0) };
-    AQuery { cols, wher, having, order, first, skip }
+    AQuery { cols, wher, having, order, first, skip, by_model_name: rng.chance(1, 2) }
 }
 fn push_agg(out: &mut Buf, w: &AWorld, q: &AQuery, kind: &str) {
     let text = q.text();
@@ -1173,15 +1190,16 @@ fn agg_cases(out: &mut Buf, rng: &mut Rng, worlds: usize, per_world: usize) {
         vec![s("a"), i(1), Val::Bool(true), i(9), Val::Flt(6), Val::Null], vec![s("a"), i(1), Val::Bool(false), i(10), Val::Flt(10), s("b")],
         vec![s("a"), Val::Null, Val::Bool(true), i(100), Val::Null, s("a")], vec![s("b"), i(2), Val::Bool(true), Val::Null, Val::Flt(1), Val::Null],
         vec![s("b"), i(2), Val::Bool(true), Val::Null, Val::Null, Val::Null], vec![s("c"), Val::Null, Val::Bool(false), i(-3), Val::Flt(28), s("z")]]);
-    let q0 = |cols: Vec<ACol>| AQuery { cols, wher: vec![], having: vec![], order: vec![(0, false)], first: 0, skip: 0 };
+    let q0 = |cols: Vec<ACol>| AQuery { cols, wher: vec![], having: vec![], order: vec![(0, false)], first: 0, skip: 0, by_model_name: false };
     let n = |x: &str| x.to_string();
     push_agg(out, &w, &q0(vec![ACol::Field(0, None), ACol::Max(n("mx"), 3), ACol::Min(n("mn"), 3)]), "directed-agg-minmax-text-order");
     push_agg(out, &w, &q0(vec![ACol::Field(0, None), ACol::Avg(n("a"), 3)]), "directed-agg-avg-counts-null");
     push_agg(out, &w, &q0(vec![ACol::Field(0, None), ACol::Count(n("c")), ACol::Sum(n("s"), 3), ACol::Sum(n("sx"), 4)]), "directed-agg-count-sum");
-    push_agg(out, &w, &AQuery { cols: vec![ACol::Count(n("c")), ACol::Sum(n("s"), 3), ACol::Avg(n("a"), 4), ACol::Max(n("m"), 5)], wher: vec![(0, 0, s("zz"))], having: vec![], order: vec![], first: 0, skip: 0 }, "directed-agg-no-row");
-    push_agg(out, &w, &AQuery { cols: vec![ACol::Field(0, None), ACol::Count(n("c"))], wher: vec![(0, 0, s("zz"))], having: vec![], order: vec![], first: 0, skip: 0 }, "directed-agg-no-group");
-    push_agg(out, &w, &AQuery { cols: vec![ACol::Field(0, None), ACol::Count(n("c"))], wher: vec![], having: vec![(1, 4, i(1))], order: vec![(1, true), (0, true)], first: 1, skip: 1 }, "directed-agg-having-order-limit");
-    push_agg(out, &w, &AQuery { cols: vec![ACol::Field(1, Some(n("hh"))), ACol::Field(2, None), ACol::Count(n("c")), ACol::Max(n("m"), 0)], wher: vec![(3, 1, Val::Null)], having: vec![], order: vec![], first: 0, skip: 0 }, "directed-agg-null-group");
+    push_agg(out, &w, &AQuery { cols: vec![ACol::Count(n("c")), ACol::Sum(n("s"), 3), ACol::Avg(n("a"), 4), ACol::Max(n("m"), 5)], wher: vec![(0, 0, s("zz"))], having: vec![], order: vec![], first: 0, skip: 0, by_model_name: false }, "directed-agg-no-row");
+    push_agg(out, &w, &AQuery { cols: vec![ACol::Field(0, None), ACol::Count(n("c"))], wher: vec![(0, 0, s("zz"))], having: vec![], order: vec![], first: 0, skip: 0, by_model_name: false }, "directed-agg-no-group");
+    push_agg(out, &w, &AQuery { cols: vec![ACol::Field(0, None), ACol::Count(n("c"))], wher: vec![], having: vec![(1, 4, i(1))], order: vec![(1, true), (0, true)], first: 1, skip: 1, by_model_name: false }, "directed-agg-having-order-limit");
+    push_agg(out, &w, &AQuery { cols: vec![ACol::Field(1, Some(n("hh"))), ACol::Field(2, None), ACol::Count(n("c")), ACol::Max(n("m"), 0)], wher: vec![(3, 1, Val::Null)], having: vec![], order: vec![], first: 0, skip: 0, by_model_name: false }, "directed-agg-null-group");
+    push_agg(out, &w, &AQuery { cols: vec![ACol::Field(0, Some(n("gg"))), ACol::Count(n("c"))], wher: vec![], having: vec![], order: vec![(0, true)], first: 2, skip: 0, by_model_name: true }, "directed-agg-order-by-name-of-aliased-group");
     for _ in 0..worlds {
         let mut r = rng.fork();
         let nrows = r.below(11) as usize;
@@ -1280,9 +1298,11 @@ fn jsel_cases(out: &mut Buf, rng: &mut Rng, worlds: usize, per_world: usize) {
                 let op = if v == Val::Null { r.below(2) as usize } else { r.below(6) as usize };
                 fs.push((sl, op, v));
             }
-            let mut ps: Vec<String> = vec!["order_by(g asc)".into()];
+            // the order key is the field g, selected under its name or under an alias only
+            let (desc, galias) = (r.chance(1, 2), r.chance(1, 2));
+            let mut ps: Vec<String> = vec![format!("order_by(g {})", if desc { "desc" } else { "asc" })];
             for (sl, op, v) in &fs { ps.push(format!("{} {} {}", sl.text(), OPS[*op], v.text())); }
-            let text = format!("query {{ J ({}) {{ g {} }} }}", ps.join(", "), sels.iter().enumerate().map(|(k, s)| format!("s{}: {}", k, s.text())).collect::<Vec<_>>().join(" "));
+            let text = format!("query {{ J ({}) {{ {} {} }} }}", ps.join(", "), if galias { "gg: g" } else { "g" }, sels.iter().enumerate().map(|(k, s)| format!("s{}: {}", k, s.text())).collect::<Vec<_>>().join(" "));
             let (obs, note) = match read_json(&conn, &dm, &text) {
                 Err(e) => (vec![2], e),
                 Ok(v) => {
@@ -1292,7 +1312,8 @@ fn jsel_cases(out: &mut Buf, rng: &mut Rng, worlds: usize, per_world: usize) {
                     (ob, v.to_string())
                 }
             };
-            let docs_coq = glist(&docs.iter().map(|d| gopt(&d.as_ref().map(doc_coq))).collect::<Vec<_>>());
+            let ordered: Vec<&Option<serde_json::Value>> = if desc { docs.iter().rev().collect() } else { docs.iter().collect() };
+            let docs_coq = glist(&ordered.iter().map(|d| gopt(&d.as_ref().map(doc_coq))).collect::<Vec<_>>());
             let fs_coq = glist(&fs.iter().map(|(sl, op, v)| format!("({}, {}, {})", sl.coq(), OPS_COQ[*op], v.coq())).collect::<Vec<_>>());
             out.push(Case { kind: if wn == 0 && qn == 0 { "directed-jsel".into() } else { "jsel".into() }, coq: format!("CJsel {} {} {}", docs_coq, glist(&sels.iter().map(|s| s.coq()).collect::<Vec<_>>()), fs_coq), obs,
                 meta: json!({"query": text, "answer": note}) });
